@@ -26,4 +26,29 @@ func (*SummaryReporterTemplate).Flush returns (err)
   modifies ghost(bufSticky, sinkFailed, sinkPend)
   ensures @sink [C17] BufStep(r.output)
   ensures @reports-loss [C17] (err != nil) == bufSticky[r.output] && (err == nil ==> sinkPend[bufSink[r.output]] == 0)
+
+// the summary command
+
+// the callback Summary hands to WithResolvedDatabase
+func Summary$1 returns (err)
+  props C08 C09 C10 C17
+  refines utils.ResolvedCallback
+  modifies *
+  captured sc.ReporterConfig.Output != nil && !typeis(sc.ReporterConfig.Output, "*bufio.Writer") && !typeis(sc.ReporterConfig.Output, "*encoding/csv.Writer")
+  defines CbOut(self) == payload(sc.ReporterConfig.Output) && CbLog(self) == payload(logStream) && CbCC(self) == sc.ParserConfig.CommentChar
+
+func Summary returns (err)
+  props C08 C09 C10 C17
+  requires @sink sc.ReporterConfig.Output != nil && !typeis(sc.ReporterConfig.Output, "*bufio.Writer") && !typeis(sc.ReporterConfig.Output, "*encoding/csv.Writer") && TreeInv()
+  modifies *
+  modifies ghost(cbLen, cbErr, cbNode, cbStop, cbRet, cbLineNo, cbLine, cbHeader, cbElems, cbNElems, scRd, scPos, privLo, evOf, accKey, accP, accN, accH, bufSink, bufSticky, sinkFailed, sinkPend, prLen, prSink, prArg, prArgs, tnodes, tdepth, tmax, tmapOf)
+  let out := payload(sc.ReporterConfig.Output)
+  let lrd := payload(logStream)
+  let drd := payload(dbStream)
+  let cc := sc.ParserConfig.CommentChar
+  ensures @book-unreadable [C10] err == nil ==> !RdFailed(drd)
+  ensures @book-malformed [C09] err == nil ==> (forall i int :: {RdLine(drd, i)} 0 <= i && i < RdN(drd) ==> !Malformed(drd, i, cc))
+  ensures @log-unreadable [C10] err == nil ==> !RdFailed(lrd)
+  ensures @log-malformed [C09] err == nil ==> (forall i int :: {RdLine(lrd, i)} 0 <= i && i < RdN(lrd) ==> !Malformed(lrd, i, cc))
+  ensures @reports-loss [C17] err == nil ==> (sinkFailed[out] ==> old(sinkFailed[out])) && sinkPend[out] == 0
 @*/
